@@ -68,7 +68,7 @@ package capella
 //@ func IsFullyWithdrawableValidator(validator, balance, epoch) r
 //@   property C01
 //@   requires readable: validator != nil && !v_wcred_err(validator) && !v_wd_err(validator)
-//@   ensures spec: r == (v_wcred(validator)[0] == 1 && v_wd(validator) <= epoch && balance > 0)
+//@   ensures spec: r == (v_wcred(validator)[0] == 1 && v_wd(n_wd_write, validator) <= epoch && balance > 0)
 
 //@ func IsPartiallyWithdrawableValidator(spec, validator, balance, epoch) r
 //@   property C01
@@ -107,26 +107,26 @@ package capella
 //@   opt noalloc
 //@   ensures (err != nil) == st_next_wvi_err(s)
 //@   ensures err == nil ==> r == st_next_wvi(s)
-//@ define wd_full(v ValIc, b int, ep int) bool = v_wcred(v)[0] == 1 && v_wd(v) <= ep && b > 0
+//@ define wd_full(wv int, v ValIc, b int, ep int) bool = v_wcred(v)[0] == 1 && v_wd(wv, v) <= ep && b > 0
 //@ define wd_partial(v ValIc, b int, maxeb int) bool = v_wcred(v)[0] == 1 && v_eb(v) == maxeb && b > maxeb
 //@ defrec sw_idx(vi0 int, count int, p int) int = ite(p <= 0, vi0, (sw_idx(vi0, count, p - 1) + 1) % count)
-//@ define sw_wd(ver int, reg RegIc, bals BalIc, ep int, maxeb int, vi0 int, count int, p int) bool = wd_full(reg_val(reg, sw_idx(vi0, count, p)), bal_at(ver, bals, sw_idx(vi0, count, p)), ep) || wd_partial(reg_val(reg, sw_idx(vi0, count, p)), bal_at(ver, bals, sw_idx(vi0, count, p)), maxeb)
-//@ define sw_amount(ver int, reg RegIc, bals BalIc, ep int, maxeb int, vi0 int, count int, p int) int = ite(wd_full(reg_val(reg, sw_idx(vi0, count, p)), bal_at(ver, bals, sw_idx(vi0, count, p)), ep), bal_at(ver, bals, sw_idx(vi0, count, p)), bal_at(ver, bals, sw_idx(vi0, count, p)) - maxeb)
-//@ defrec sw_count(ver int, reg RegIc, bals BalIc, ep int, maxeb int, vi0 int, count int, p int) int = ite(p <= 0, 0, sw_count(ver, reg, bals, ep, maxeb, vi0, count, p - 1) + ite(sw_wd(ver, reg, bals, ep, maxeb, vi0, count, p - 1), 1, 0))
+//@ define sw_wd(wv int, ver int, reg RegIc, bals BalIc, ep int, maxeb int, vi0 int, count int, p int) bool = wd_full(wv, reg_val(reg, sw_idx(vi0, count, p)), bal_at(ver, bals, sw_idx(vi0, count, p)), ep) || wd_partial(reg_val(reg, sw_idx(vi0, count, p)), bal_at(ver, bals, sw_idx(vi0, count, p)), maxeb)
+//@ define sw_amount(wv int, ver int, reg RegIc, bals BalIc, ep int, maxeb int, vi0 int, count int, p int) int = ite(wd_full(wv, reg_val(reg, sw_idx(vi0, count, p)), bal_at(ver, bals, sw_idx(vi0, count, p)), ep), bal_at(ver, bals, sw_idx(vi0, count, p)), bal_at(ver, bals, sw_idx(vi0, count, p)) - maxeb)
+//@ defrec sw_count(wv int, ver int, reg RegIc, bals BalIc, ep int, maxeb int, vi0 int, count int, p int) int = ite(p <= 0, 0, sw_count(wv, ver, reg, bals, ep, maxeb, vi0, count, p - 1) + ite(sw_wd(wv, ver, reg, bals, ep, maxeb, vi0, count, p - 1), 1, 0))
 
 //@ func Eth1WithdrawalCredential(validator) r
 //@   property C01
 //@   requires readable: validator != nil && !v_wcred_err(validator)
 //@   ensures forall k :: 0 <= k && k < 20 ==> r[k] == v_wcred(validator)[12 + k]
 
-//@ lemma sw_count_mono [C01, induct=q, manual]: forall q int, ver int, reg RegIc, bals BalIc, ep int, maxeb int, vi0 int, count int, p int :: {sw_count(ver, reg, bals, ep, maxeb, vi0, count, p), sw_count(ver, reg, bals, ep, maxeb, vi0, count, q)} p <= q ==> sw_count(ver, reg, bals, ep, maxeb, vi0, count, p) <= sw_count(ver, reg, bals, ep, maxeb, vi0, count, q)
-//@ lemma sw_count_bound [C01, induct=q, manual]: forall q int, ver int, reg RegIc, bals BalIc, ep int, maxeb int, vi0 int, count int :: {sw_count(ver, reg, bals, ep, maxeb, vi0, count, q)} 0 <= sw_count(ver, reg, bals, ep, maxeb, vi0, count, q) && sw_count(ver, reg, bals, ep, maxeb, vi0, count, q) <= max(q, 0)
+//@ lemma sw_count_mono [C01, induct=q, manual]: forall q int, wv int, ver int, reg RegIc, bals BalIc, ep int, maxeb int, vi0 int, count int, p int :: {sw_count(wv, ver, reg, bals, ep, maxeb, vi0, count, p), sw_count(wv, ver, reg, bals, ep, maxeb, vi0, count, q)} p <= q ==> sw_count(wv, ver, reg, bals, ep, maxeb, vi0, count, p) <= sw_count(wv, ver, reg, bals, ep, maxeb, vi0, count, q)
+//@ lemma sw_count_bound [C01, induct=q, manual]: forall q int, wv int, ver int, reg RegIc, bals BalIc, ep int, maxeb int, vi0 int, count int :: {sw_count(wv, ver, reg, bals, ep, maxeb, vi0, count, q)} 0 <= sw_count(wv, ver, reg, bals, ep, maxeb, vi0, count, q) && sw_count(wv, ver, reg, bals, ep, maxeb, vi0, count, q) <= max(q, 0)
 //@ func GetExpectedWithdrawals(state, spec) (out, err)
 //@   property C01
 //@   use reg_len_nonneg, sw_count_mono, sw_count_bound, val_views_readable
 //@   requires spec != nil && state != nil && spec.SLOTS_PER_EPOCH != 0
-//@   ensures count: err == nil && spec != nil && state != nil && spec.SLOTS_PER_EPOCH != 0 && spec.MAX_WITHDRAWALS_PER_PAYLOAD > 0 && spec.MAX_WITHDRAWALS_PER_PAYLOAD < 4611686018427387904 && st_next_wi(state) < 4611686018427387904 && st_next_wvi(state) < 4611686018427387904 ==> len(out) == min(spec.MAX_WITHDRAWALS_PER_PAYLOAD, sw_count(n_set_bal, st_vals(state), st_bals(state), st_slot(state) / spec.SLOTS_PER_EPOCH, spec.MAX_EFFECTIVE_BALANCE, st_next_wvi(state), reg_len(st_vals(state)), min(reg_len(st_vals(state)), spec.MAX_VALIDATORS_PER_WITHDRAWALS_SWEEP)))
-//@   ensures members: err == nil && spec != nil && state != nil && spec.SLOTS_PER_EPOCH != 0 && spec.MAX_WITHDRAWALS_PER_PAYLOAD > 0 && spec.MAX_WITHDRAWALS_PER_PAYLOAD < 4611686018427387904 && st_next_wi(state) < 4611686018427387904 && st_next_wvi(state) < 4611686018427387904 ==> (forall p :: {sw_count(n_set_bal, st_vals(state), st_bals(state), st_slot(state) / spec.SLOTS_PER_EPOCH, spec.MAX_EFFECTIVE_BALANCE, st_next_wvi(state), reg_len(st_vals(state)), p)} 0 <= p && p < min(reg_len(st_vals(state)), spec.MAX_VALIDATORS_PER_WITHDRAWALS_SWEEP) && sw_wd(n_set_bal, st_vals(state), st_bals(state), st_slot(state) / spec.SLOTS_PER_EPOCH, spec.MAX_EFFECTIVE_BALANCE, st_next_wvi(state), reg_len(st_vals(state)), p) && sw_count(n_set_bal, st_vals(state), st_bals(state), st_slot(state) / spec.SLOTS_PER_EPOCH, spec.MAX_EFFECTIVE_BALANCE, st_next_wvi(state), reg_len(st_vals(state)), p) < spec.MAX_WITHDRAWALS_PER_PAYLOAD ==> 0 <= sw_count(n_set_bal, st_vals(state), st_bals(state), st_slot(state) / spec.SLOTS_PER_EPOCH, spec.MAX_EFFECTIVE_BALANCE, st_next_wvi(state), reg_len(st_vals(state)), p) && sw_count(n_set_bal, st_vals(state), st_bals(state), st_slot(state) / spec.SLOTS_PER_EPOCH, spec.MAX_EFFECTIVE_BALANCE, st_next_wvi(state), reg_len(st_vals(state)), p) < len(out) && out[sw_count(n_set_bal, st_vals(state), st_bals(state), st_slot(state) / spec.SLOTS_PER_EPOCH, spec.MAX_EFFECTIVE_BALANCE, st_next_wvi(state), reg_len(st_vals(state)), p)].Index == st_next_wi(state) + sw_count(n_set_bal, st_vals(state), st_bals(state), st_slot(state) / spec.SLOTS_PER_EPOCH, spec.MAX_EFFECTIVE_BALANCE, st_next_wvi(state), reg_len(st_vals(state)), p) && out[sw_count(n_set_bal, st_vals(state), st_bals(state), st_slot(state) / spec.SLOTS_PER_EPOCH, spec.MAX_EFFECTIVE_BALANCE, st_next_wvi(state), reg_len(st_vals(state)), p)].ValidatorIndex == sw_idx(st_next_wvi(state), reg_len(st_vals(state)), p) && out[sw_count(n_set_bal, st_vals(state), st_bals(state), st_slot(state) / spec.SLOTS_PER_EPOCH, spec.MAX_EFFECTIVE_BALANCE, st_next_wvi(state), reg_len(st_vals(state)), p)].Amount == sw_amount(n_set_bal, st_vals(state), st_bals(state), st_slot(state) / spec.SLOTS_PER_EPOCH, spec.MAX_EFFECTIVE_BALANCE, st_next_wvi(state), reg_len(st_vals(state)), p) && (forall k :: 0 <= k && k < 20 ==> out[sw_count(n_set_bal, st_vals(state), st_bals(state), st_slot(state) / spec.SLOTS_PER_EPOCH, spec.MAX_EFFECTIVE_BALANCE, st_next_wvi(state), reg_len(st_vals(state)), p)].Address[k] == v_wcred(reg_val(st_vals(state), sw_idx(st_next_wvi(state), reg_len(st_vals(state)), p)))[12 + k]))
+//@   ensures count: err == nil && spec != nil && state != nil && spec.SLOTS_PER_EPOCH != 0 && spec.MAX_WITHDRAWALS_PER_PAYLOAD > 0 && spec.MAX_WITHDRAWALS_PER_PAYLOAD < 4611686018427387904 && st_next_wi(state) < 4611686018427387904 && st_next_wvi(state) < 4611686018427387904 ==> len(out) == min(spec.MAX_WITHDRAWALS_PER_PAYLOAD, sw_count(n_wd_write, n_set_bal, st_vals(state), st_bals(state), st_slot(state) / spec.SLOTS_PER_EPOCH, spec.MAX_EFFECTIVE_BALANCE, st_next_wvi(state), reg_len(st_vals(state)), min(reg_len(st_vals(state)), spec.MAX_VALIDATORS_PER_WITHDRAWALS_SWEEP)))
+//@   ensures members: err == nil && spec != nil && state != nil && spec.SLOTS_PER_EPOCH != 0 && spec.MAX_WITHDRAWALS_PER_PAYLOAD > 0 && spec.MAX_WITHDRAWALS_PER_PAYLOAD < 4611686018427387904 && st_next_wi(state) < 4611686018427387904 && st_next_wvi(state) < 4611686018427387904 ==> (forall p :: {sw_count(n_wd_write, n_set_bal, st_vals(state), st_bals(state), st_slot(state) / spec.SLOTS_PER_EPOCH, spec.MAX_EFFECTIVE_BALANCE, st_next_wvi(state), reg_len(st_vals(state)), p)} 0 <= p && p < min(reg_len(st_vals(state)), spec.MAX_VALIDATORS_PER_WITHDRAWALS_SWEEP) && sw_wd(n_wd_write, n_set_bal, st_vals(state), st_bals(state), st_slot(state) / spec.SLOTS_PER_EPOCH, spec.MAX_EFFECTIVE_BALANCE, st_next_wvi(state), reg_len(st_vals(state)), p) && sw_count(n_wd_write, n_set_bal, st_vals(state), st_bals(state), st_slot(state) / spec.SLOTS_PER_EPOCH, spec.MAX_EFFECTIVE_BALANCE, st_next_wvi(state), reg_len(st_vals(state)), p) < spec.MAX_WITHDRAWALS_PER_PAYLOAD ==> 0 <= sw_count(n_wd_write, n_set_bal, st_vals(state), st_bals(state), st_slot(state) / spec.SLOTS_PER_EPOCH, spec.MAX_EFFECTIVE_BALANCE, st_next_wvi(state), reg_len(st_vals(state)), p) && sw_count(n_wd_write, n_set_bal, st_vals(state), st_bals(state), st_slot(state) / spec.SLOTS_PER_EPOCH, spec.MAX_EFFECTIVE_BALANCE, st_next_wvi(state), reg_len(st_vals(state)), p) < len(out) && out[sw_count(n_wd_write, n_set_bal, st_vals(state), st_bals(state), st_slot(state) / spec.SLOTS_PER_EPOCH, spec.MAX_EFFECTIVE_BALANCE, st_next_wvi(state), reg_len(st_vals(state)), p)].Index == st_next_wi(state) + sw_count(n_wd_write, n_set_bal, st_vals(state), st_bals(state), st_slot(state) / spec.SLOTS_PER_EPOCH, spec.MAX_EFFECTIVE_BALANCE, st_next_wvi(state), reg_len(st_vals(state)), p) && out[sw_count(n_wd_write, n_set_bal, st_vals(state), st_bals(state), st_slot(state) / spec.SLOTS_PER_EPOCH, spec.MAX_EFFECTIVE_BALANCE, st_next_wvi(state), reg_len(st_vals(state)), p)].ValidatorIndex == sw_idx(st_next_wvi(state), reg_len(st_vals(state)), p) && out[sw_count(n_wd_write, n_set_bal, st_vals(state), st_bals(state), st_slot(state) / spec.SLOTS_PER_EPOCH, spec.MAX_EFFECTIVE_BALANCE, st_next_wvi(state), reg_len(st_vals(state)), p)].Amount == sw_amount(n_wd_write, n_set_bal, st_vals(state), st_bals(state), st_slot(state) / spec.SLOTS_PER_EPOCH, spec.MAX_EFFECTIVE_BALANCE, st_next_wvi(state), reg_len(st_vals(state)), p) && (forall k :: 0 <= k && k < 20 ==> out[sw_count(n_wd_write, n_set_bal, st_vals(state), st_bals(state), st_slot(state) / spec.SLOTS_PER_EPOCH, spec.MAX_EFFECTIVE_BALANCE, st_next_wvi(state), reg_len(st_vals(state)), p)].Address[k] == v_wcred(reg_val(st_vals(state), sw_idx(st_next_wvi(state), reg_len(st_vals(state)), p)))[12 + k]))
 //@   ensures indices: err == nil && spec != nil && state != nil && spec.SLOTS_PER_EPOCH != 0 && spec.MAX_WITHDRAWALS_PER_PAYLOAD > 0 && spec.MAX_WITHDRAWALS_PER_PAYLOAD < 4611686018427387904 && st_next_wi(state) < 4611686018427387904 && st_next_wvi(state) < 4611686018427387904 ==> (forall k :: {out[k]} 0 <= k && k < len(out) ==> out[k].Index == st_next_wi(state) + k && out[k].ValidatorIndex < 4611686018427387904)
 //@   ensures n_set_bal == old(n_set_bal)
 //@   loop 1
@@ -134,10 +134,10 @@ package capella
 //@     invariant validators == st_vals(state) && balances == st_bals(state) && validatorCount == reg_len(validators) && epoch == st_slot(state) / spec.SLOTS_PER_EPOCH && n_set_bal == old(n_set_bal)
 //@     invariant spec != nil && state != nil && spec.SLOTS_PER_EPOCH != 0 && spec.MAX_WITHDRAWALS_PER_PAYLOAD > 0 && spec.MAX_WITHDRAWALS_PER_PAYLOAD < 4611686018427387904 && st_next_wi(state) < 4611686018427387904 && st_next_wvi(state) < 4611686018427387904 ==> 0 <= i && i <= min(reg_len(st_vals(state)), spec.MAX_VALIDATORS_PER_WITHDRAWALS_SWEEP)
 //@     invariant spec != nil && state != nil && spec.SLOTS_PER_EPOCH != 0 && spec.MAX_WITHDRAWALS_PER_PAYLOAD > 0 && spec.MAX_WITHDRAWALS_PER_PAYLOAD < 4611686018427387904 && st_next_wi(state) < 4611686018427387904 && st_next_wvi(state) < 4611686018427387904 ==> validatorIndex == sw_idx(st_next_wvi(state), validatorCount, i) && validatorIndex < 4611686018427387904
-//@     invariant spec != nil && state != nil && spec.SLOTS_PER_EPOCH != 0 && spec.MAX_WITHDRAWALS_PER_PAYLOAD > 0 && spec.MAX_WITHDRAWALS_PER_PAYLOAD < 4611686018427387904 && st_next_wi(state) < 4611686018427387904 && st_next_wvi(state) < 4611686018427387904 ==> len(withdrawals) == sw_count(n_set_bal, st_vals(state), st_bals(state), st_slot(state) / spec.SLOTS_PER_EPOCH, spec.MAX_EFFECTIVE_BALANCE, st_next_wvi(state), reg_len(st_vals(state)), i) && len(withdrawals) <= i
+//@     invariant spec != nil && state != nil && spec.SLOTS_PER_EPOCH != 0 && spec.MAX_WITHDRAWALS_PER_PAYLOAD > 0 && spec.MAX_WITHDRAWALS_PER_PAYLOAD < 4611686018427387904 && st_next_wi(state) < 4611686018427387904 && st_next_wvi(state) < 4611686018427387904 ==> len(withdrawals) == sw_count(n_wd_write, n_set_bal, st_vals(state), st_bals(state), st_slot(state) / spec.SLOTS_PER_EPOCH, spec.MAX_EFFECTIVE_BALANCE, st_next_wvi(state), reg_len(st_vals(state)), i) && len(withdrawals) <= i
 //@     invariant spec != nil && state != nil && spec.SLOTS_PER_EPOCH != 0 && spec.MAX_WITHDRAWALS_PER_PAYLOAD > 0 && spec.MAX_WITHDRAWALS_PER_PAYLOAD < 4611686018427387904 && st_next_wi(state) < 4611686018427387904 && st_next_wvi(state) < 4611686018427387904 ==> withdrawalIndex == st_next_wi(state) + len(withdrawals)
 //@     invariant spec != nil && state != nil && spec.SLOTS_PER_EPOCH != 0 && spec.MAX_WITHDRAWALS_PER_PAYLOAD > 0 && spec.MAX_WITHDRAWALS_PER_PAYLOAD < 4611686018427387904 && st_next_wi(state) < 4611686018427387904 && st_next_wvi(state) < 4611686018427387904 ==> len(withdrawals) < spec.MAX_WITHDRAWALS_PER_PAYLOAD
-//@     invariant spec != nil && state != nil && spec.SLOTS_PER_EPOCH != 0 && spec.MAX_WITHDRAWALS_PER_PAYLOAD > 0 && spec.MAX_WITHDRAWALS_PER_PAYLOAD < 4611686018427387904 && st_next_wi(state) < 4611686018427387904 && st_next_wvi(state) < 4611686018427387904 ==> (forall p :: {sw_count(n_set_bal, st_vals(state), st_bals(state), st_slot(state) / spec.SLOTS_PER_EPOCH, spec.MAX_EFFECTIVE_BALANCE, st_next_wvi(state), reg_len(st_vals(state)), p)} 0 <= p && p < i && sw_wd(n_set_bal, st_vals(state), st_bals(state), st_slot(state) / spec.SLOTS_PER_EPOCH, spec.MAX_EFFECTIVE_BALANCE, st_next_wvi(state), reg_len(st_vals(state)), p) ==> sw_count(n_set_bal, st_vals(state), st_bals(state), st_slot(state) / spec.SLOTS_PER_EPOCH, spec.MAX_EFFECTIVE_BALANCE, st_next_wvi(state), reg_len(st_vals(state)), p) < len(withdrawals) && withdrawals[sw_count(n_set_bal, st_vals(state), st_bals(state), st_slot(state) / spec.SLOTS_PER_EPOCH, spec.MAX_EFFECTIVE_BALANCE, st_next_wvi(state), reg_len(st_vals(state)), p)].Index == st_next_wi(state) + sw_count(n_set_bal, st_vals(state), st_bals(state), st_slot(state) / spec.SLOTS_PER_EPOCH, spec.MAX_EFFECTIVE_BALANCE, st_next_wvi(state), reg_len(st_vals(state)), p) && withdrawals[sw_count(n_set_bal, st_vals(state), st_bals(state), st_slot(state) / spec.SLOTS_PER_EPOCH, spec.MAX_EFFECTIVE_BALANCE, st_next_wvi(state), reg_len(st_vals(state)), p)].ValidatorIndex == sw_idx(st_next_wvi(state), reg_len(st_vals(state)), p) && withdrawals[sw_count(n_set_bal, st_vals(state), st_bals(state), st_slot(state) / spec.SLOTS_PER_EPOCH, spec.MAX_EFFECTIVE_BALANCE, st_next_wvi(state), reg_len(st_vals(state)), p)].Amount == sw_amount(n_set_bal, st_vals(state), st_bals(state), st_slot(state) / spec.SLOTS_PER_EPOCH, spec.MAX_EFFECTIVE_BALANCE, st_next_wvi(state), reg_len(st_vals(state)), p) && (forall k :: 0 <= k && k < 20 ==> withdrawals[sw_count(n_set_bal, st_vals(state), st_bals(state), st_slot(state) / spec.SLOTS_PER_EPOCH, spec.MAX_EFFECTIVE_BALANCE, st_next_wvi(state), reg_len(st_vals(state)), p)].Address[k] == v_wcred(reg_val(st_vals(state), sw_idx(st_next_wvi(state), reg_len(st_vals(state)), p)))[12 + k]))
+//@     invariant spec != nil && state != nil && spec.SLOTS_PER_EPOCH != 0 && spec.MAX_WITHDRAWALS_PER_PAYLOAD > 0 && spec.MAX_WITHDRAWALS_PER_PAYLOAD < 4611686018427387904 && st_next_wi(state) < 4611686018427387904 && st_next_wvi(state) < 4611686018427387904 ==> (forall p :: {sw_count(n_wd_write, n_set_bal, st_vals(state), st_bals(state), st_slot(state) / spec.SLOTS_PER_EPOCH, spec.MAX_EFFECTIVE_BALANCE, st_next_wvi(state), reg_len(st_vals(state)), p)} 0 <= p && p < i && sw_wd(n_wd_write, n_set_bal, st_vals(state), st_bals(state), st_slot(state) / spec.SLOTS_PER_EPOCH, spec.MAX_EFFECTIVE_BALANCE, st_next_wvi(state), reg_len(st_vals(state)), p) ==> sw_count(n_wd_write, n_set_bal, st_vals(state), st_bals(state), st_slot(state) / spec.SLOTS_PER_EPOCH, spec.MAX_EFFECTIVE_BALANCE, st_next_wvi(state), reg_len(st_vals(state)), p) < len(withdrawals) && withdrawals[sw_count(n_wd_write, n_set_bal, st_vals(state), st_bals(state), st_slot(state) / spec.SLOTS_PER_EPOCH, spec.MAX_EFFECTIVE_BALANCE, st_next_wvi(state), reg_len(st_vals(state)), p)].Index == st_next_wi(state) + sw_count(n_wd_write, n_set_bal, st_vals(state), st_bals(state), st_slot(state) / spec.SLOTS_PER_EPOCH, spec.MAX_EFFECTIVE_BALANCE, st_next_wvi(state), reg_len(st_vals(state)), p) && withdrawals[sw_count(n_wd_write, n_set_bal, st_vals(state), st_bals(state), st_slot(state) / spec.SLOTS_PER_EPOCH, spec.MAX_EFFECTIVE_BALANCE, st_next_wvi(state), reg_len(st_vals(state)), p)].ValidatorIndex == sw_idx(st_next_wvi(state), reg_len(st_vals(state)), p) && withdrawals[sw_count(n_wd_write, n_set_bal, st_vals(state), st_bals(state), st_slot(state) / spec.SLOTS_PER_EPOCH, spec.MAX_EFFECTIVE_BALANCE, st_next_wvi(state), reg_len(st_vals(state)), p)].Amount == sw_amount(n_wd_write, n_set_bal, st_vals(state), st_bals(state), st_slot(state) / spec.SLOTS_PER_EPOCH, spec.MAX_EFFECTIVE_BALANCE, st_next_wvi(state), reg_len(st_vals(state)), p) && (forall k :: 0 <= k && k < 20 ==> withdrawals[sw_count(n_wd_write, n_set_bal, st_vals(state), st_bals(state), st_slot(state) / spec.SLOTS_PER_EPOCH, spec.MAX_EFFECTIVE_BALANCE, st_next_wvi(state), reg_len(st_vals(state)), p)].Address[k] == v_wcred(reg_val(st_vals(state), sw_idx(st_next_wvi(state), reg_len(st_vals(state)), p)))[12 + k]))
 
 // the payload's withdrawals and the state's sweep cursors (assumed interface models; setters recorded)
 //@ sort PlW = ExecutionPayloadWithWithdrawals
@@ -256,9 +256,10 @@ package capella
 //@   assigns ghost(n_set_score)
 //@   assigns ghost(n_biter), ghost(biter_pos), ghost(biter_reg), ghost(n_set_eb)
 //@   assigns ghost(n_set_bal)
+//@   assigns ghost(n_aelig_write), ghost(n_set_act), ghost(last_set_act_v), ghost(last_set_act_val)
 //@   assigns ghost(n_eth1_reset), ghost(n_slash_reset), ghost(last_slash_reset), ghost(n_set_mix), ghost(last_set_mix_epoch), ghost(last_set_mix), ghost(n_hist_update)
 //@   assigns ghost(n_set_prevjust), ghost(set_prevjust), ghost(n_set_curjust), ghost(set_curjust), ghost(n_set_fin), ghost(set_fin), ghost(n_set_jbits), ghost(set_jbits)
-//@   assigns ghost(n_viter), ghost(viter_pos), ghost(viter_reg), ghost(n_val_write), ghost(n_set_exit), ghost(set_exit_v), ghost(set_exit_val), ghost(n_set_wd), ghost(set_wd_v), ghost(set_wd_val)
+//@   assigns ghost(n_viter), ghost(viter_pos), ghost(viter_reg), ghost(n_val_write), ghost(n_wd_write), ghost(n_set_exit), ghost(set_exit_v), ghost(set_exit_val), ghost(n_set_wd), ghost(set_wd_v), ghost(set_wd_val)
 
 //@ func (state *BeaconStateView) ProcessBlock(ctx, spec, epc, benv) err
 //@   property C18
@@ -280,7 +281,7 @@ package capella
 //@   assigns ghost(n_set_nwi), ghost(set_nwi), ghost(n_set_nwvi), ghost(set_nwvi)
 //@   assigns ghost(n_set_mix), ghost(last_set_mix_epoch), ghost(last_set_mix)
 //@   assigns ghost(n_set_lhdr), ghost(set_lhdr)
-//@   assigns ghost(n_viter), ghost(viter_pos), ghost(viter_reg), ghost(n_val_write), ghost(n_set_exit), ghost(set_exit_v), ghost(set_exit_val), ghost(n_set_wd), ghost(set_wd_v), ghost(set_wd_val)
+//@   assigns ghost(n_viter), ghost(viter_pos), ghost(viter_reg), ghost(n_val_write), ghost(n_wd_write), ghost(n_set_exit), ghost(set_exit_v), ghost(set_exit_val), ghost(n_set_wd), ghost(set_wd_v), ghost(set_wd_val)
 
 //@ func ProcessWithdrawals(ctx, spec, state, executionPayload) err
 //@   property C18 C03 C01
@@ -297,11 +298,11 @@ package capella
 //@     invariant ctx_t > old(ctx_t) ==> !ctx_cancelled(ctx, old(ctx_t))
 //@   use reg_len_nonneg, val_views_readable
 //@   assigns ghost(n_set_bal), ghost(n_set_nwi), ghost(set_nwi), ghost(n_set_nwvi), ghost(set_nwvi)
-//@   ensures c03_count: err == nil && old(spec != nil && state != nil && executionPayload != nil && spec.SLOTS_PER_EPOCH != 0 && spec.MAX_WITHDRAWALS_PER_PAYLOAD > 0 && spec.MAX_WITHDRAWALS_PER_PAYLOAD < 4611686018427387904 && st_next_wi(state) < 4611686018427387904 && st_next_wvi(state) < 4611686018427387904 && spec.MAX_VALIDATORS_PER_WITHDRAWALS_SWEEP < 4611686018427387904) ==> len(pl_wds(executionPayload)) == min(spec.MAX_WITHDRAWALS_PER_PAYLOAD, sw_count(old(n_set_bal), st_vals(state), st_bals(state), st_slot(state) / spec.SLOTS_PER_EPOCH, spec.MAX_EFFECTIVE_BALANCE, st_next_wvi(state), reg_len(st_vals(state)), min(reg_len(st_vals(state)), spec.MAX_VALIDATORS_PER_WITHDRAWALS_SWEEP)))
-//@   ensures c03_members_len: err == nil && old(spec != nil && state != nil && executionPayload != nil && spec.SLOTS_PER_EPOCH != 0 && spec.MAX_WITHDRAWALS_PER_PAYLOAD > 0 && spec.MAX_WITHDRAWALS_PER_PAYLOAD < 4611686018427387904 && st_next_wi(state) < 4611686018427387904 && st_next_wvi(state) < 4611686018427387904 && spec.MAX_VALIDATORS_PER_WITHDRAWALS_SWEEP < 4611686018427387904) ==> (forall p :: {sw_count(old(n_set_bal), st_vals(state), st_bals(state), st_slot(state) / spec.SLOTS_PER_EPOCH, spec.MAX_EFFECTIVE_BALANCE, st_next_wvi(state), reg_len(st_vals(state)), p)} 0 <= p && p < min(reg_len(st_vals(state)), spec.MAX_VALIDATORS_PER_WITHDRAWALS_SWEEP) && sw_wd(old(n_set_bal), st_vals(state), st_bals(state), st_slot(state) / spec.SLOTS_PER_EPOCH, spec.MAX_EFFECTIVE_BALANCE, st_next_wvi(state), reg_len(st_vals(state)), p) && sw_count(old(n_set_bal), st_vals(state), st_bals(state), st_slot(state) / spec.SLOTS_PER_EPOCH, spec.MAX_EFFECTIVE_BALANCE, st_next_wvi(state), reg_len(st_vals(state)), p) < spec.MAX_WITHDRAWALS_PER_PAYLOAD ==> sw_count(old(n_set_bal), st_vals(state), st_bals(state), st_slot(state) / spec.SLOTS_PER_EPOCH, spec.MAX_EFFECTIVE_BALANCE, st_next_wvi(state), reg_len(st_vals(state)), p) < len(pl_wds(executionPayload)))
-//@   ensures c03_members_index: err == nil && old(spec != nil && state != nil && executionPayload != nil && spec.SLOTS_PER_EPOCH != 0 && spec.MAX_WITHDRAWALS_PER_PAYLOAD > 0 && spec.MAX_WITHDRAWALS_PER_PAYLOAD < 4611686018427387904 && st_next_wi(state) < 4611686018427387904 && st_next_wvi(state) < 4611686018427387904 && spec.MAX_VALIDATORS_PER_WITHDRAWALS_SWEEP < 4611686018427387904) ==> (forall p :: {sw_count(old(n_set_bal), st_vals(state), st_bals(state), st_slot(state) / spec.SLOTS_PER_EPOCH, spec.MAX_EFFECTIVE_BALANCE, st_next_wvi(state), reg_len(st_vals(state)), p)} 0 <= p && p < min(reg_len(st_vals(state)), spec.MAX_VALIDATORS_PER_WITHDRAWALS_SWEEP) && sw_wd(old(n_set_bal), st_vals(state), st_bals(state), st_slot(state) / spec.SLOTS_PER_EPOCH, spec.MAX_EFFECTIVE_BALANCE, st_next_wvi(state), reg_len(st_vals(state)), p) && sw_count(old(n_set_bal), st_vals(state), st_bals(state), st_slot(state) / spec.SLOTS_PER_EPOCH, spec.MAX_EFFECTIVE_BALANCE, st_next_wvi(state), reg_len(st_vals(state)), p) < spec.MAX_WITHDRAWALS_PER_PAYLOAD ==> pl_wds(executionPayload)[sw_count(old(n_set_bal), st_vals(state), st_bals(state), st_slot(state) / spec.SLOTS_PER_EPOCH, spec.MAX_EFFECTIVE_BALANCE, st_next_wvi(state), reg_len(st_vals(state)), p)].Index == st_next_wi(state) + sw_count(old(n_set_bal), st_vals(state), st_bals(state), st_slot(state) / spec.SLOTS_PER_EPOCH, spec.MAX_EFFECTIVE_BALANCE, st_next_wvi(state), reg_len(st_vals(state)), p) && pl_wds(executionPayload)[sw_count(old(n_set_bal), st_vals(state), st_bals(state), st_slot(state) / spec.SLOTS_PER_EPOCH, spec.MAX_EFFECTIVE_BALANCE, st_next_wvi(state), reg_len(st_vals(state)), p)].ValidatorIndex == sw_idx(st_next_wvi(state), reg_len(st_vals(state)), p))
-//@   ensures c03_members_amount: err == nil && old(spec != nil && state != nil && executionPayload != nil && spec.SLOTS_PER_EPOCH != 0 && spec.MAX_WITHDRAWALS_PER_PAYLOAD > 0 && spec.MAX_WITHDRAWALS_PER_PAYLOAD < 4611686018427387904 && st_next_wi(state) < 4611686018427387904 && st_next_wvi(state) < 4611686018427387904 && spec.MAX_VALIDATORS_PER_WITHDRAWALS_SWEEP < 4611686018427387904) ==> (forall p :: {sw_count(old(n_set_bal), st_vals(state), st_bals(state), st_slot(state) / spec.SLOTS_PER_EPOCH, spec.MAX_EFFECTIVE_BALANCE, st_next_wvi(state), reg_len(st_vals(state)), p)} 0 <= p && p < min(reg_len(st_vals(state)), spec.MAX_VALIDATORS_PER_WITHDRAWALS_SWEEP) && sw_wd(old(n_set_bal), st_vals(state), st_bals(state), st_slot(state) / spec.SLOTS_PER_EPOCH, spec.MAX_EFFECTIVE_BALANCE, st_next_wvi(state), reg_len(st_vals(state)), p) && sw_count(old(n_set_bal), st_vals(state), st_bals(state), st_slot(state) / spec.SLOTS_PER_EPOCH, spec.MAX_EFFECTIVE_BALANCE, st_next_wvi(state), reg_len(st_vals(state)), p) < spec.MAX_WITHDRAWALS_PER_PAYLOAD ==> pl_wds(executionPayload)[sw_count(old(n_set_bal), st_vals(state), st_bals(state), st_slot(state) / spec.SLOTS_PER_EPOCH, spec.MAX_EFFECTIVE_BALANCE, st_next_wvi(state), reg_len(st_vals(state)), p)].Amount == sw_amount(old(n_set_bal), st_vals(state), st_bals(state), st_slot(state) / spec.SLOTS_PER_EPOCH, spec.MAX_EFFECTIVE_BALANCE, st_next_wvi(state), reg_len(st_vals(state)), p))
-//@   ensures c03_members_address: err == nil && old(spec != nil && state != nil && executionPayload != nil && spec.SLOTS_PER_EPOCH != 0 && spec.MAX_WITHDRAWALS_PER_PAYLOAD > 0 && spec.MAX_WITHDRAWALS_PER_PAYLOAD < 4611686018427387904 && st_next_wi(state) < 4611686018427387904 && st_next_wvi(state) < 4611686018427387904 && spec.MAX_VALIDATORS_PER_WITHDRAWALS_SWEEP < 4611686018427387904) ==> (forall p :: {sw_count(old(n_set_bal), st_vals(state), st_bals(state), st_slot(state) / spec.SLOTS_PER_EPOCH, spec.MAX_EFFECTIVE_BALANCE, st_next_wvi(state), reg_len(st_vals(state)), p)} 0 <= p && p < min(reg_len(st_vals(state)), spec.MAX_VALIDATORS_PER_WITHDRAWALS_SWEEP) && sw_wd(old(n_set_bal), st_vals(state), st_bals(state), st_slot(state) / spec.SLOTS_PER_EPOCH, spec.MAX_EFFECTIVE_BALANCE, st_next_wvi(state), reg_len(st_vals(state)), p) && sw_count(old(n_set_bal), st_vals(state), st_bals(state), st_slot(state) / spec.SLOTS_PER_EPOCH, spec.MAX_EFFECTIVE_BALANCE, st_next_wvi(state), reg_len(st_vals(state)), p) < spec.MAX_WITHDRAWALS_PER_PAYLOAD ==> (forall k :: 0 <= k && k < 20 ==> pl_wds(executionPayload)[sw_count(old(n_set_bal), st_vals(state), st_bals(state), st_slot(state) / spec.SLOTS_PER_EPOCH, spec.MAX_EFFECTIVE_BALANCE, st_next_wvi(state), reg_len(st_vals(state)), p)].Address[k] == v_wcred(reg_val(st_vals(state), sw_idx(st_next_wvi(state), reg_len(st_vals(state)), p)))[12 + k]))
+//@   ensures c03_count: err == nil && old(spec != nil && state != nil && executionPayload != nil && spec.SLOTS_PER_EPOCH != 0 && spec.MAX_WITHDRAWALS_PER_PAYLOAD > 0 && spec.MAX_WITHDRAWALS_PER_PAYLOAD < 4611686018427387904 && st_next_wi(state) < 4611686018427387904 && st_next_wvi(state) < 4611686018427387904 && spec.MAX_VALIDATORS_PER_WITHDRAWALS_SWEEP < 4611686018427387904) ==> len(pl_wds(executionPayload)) == min(spec.MAX_WITHDRAWALS_PER_PAYLOAD, sw_count(old(n_wd_write), old(n_set_bal), st_vals(state), st_bals(state), st_slot(state) / spec.SLOTS_PER_EPOCH, spec.MAX_EFFECTIVE_BALANCE, st_next_wvi(state), reg_len(st_vals(state)), min(reg_len(st_vals(state)), spec.MAX_VALIDATORS_PER_WITHDRAWALS_SWEEP)))
+//@   ensures c03_members_len: err == nil && old(spec != nil && state != nil && executionPayload != nil && spec.SLOTS_PER_EPOCH != 0 && spec.MAX_WITHDRAWALS_PER_PAYLOAD > 0 && spec.MAX_WITHDRAWALS_PER_PAYLOAD < 4611686018427387904 && st_next_wi(state) < 4611686018427387904 && st_next_wvi(state) < 4611686018427387904 && spec.MAX_VALIDATORS_PER_WITHDRAWALS_SWEEP < 4611686018427387904) ==> (forall p :: {sw_count(old(n_wd_write), old(n_set_bal), st_vals(state), st_bals(state), st_slot(state) / spec.SLOTS_PER_EPOCH, spec.MAX_EFFECTIVE_BALANCE, st_next_wvi(state), reg_len(st_vals(state)), p)} 0 <= p && p < min(reg_len(st_vals(state)), spec.MAX_VALIDATORS_PER_WITHDRAWALS_SWEEP) && sw_wd(old(n_wd_write), old(n_set_bal), st_vals(state), st_bals(state), st_slot(state) / spec.SLOTS_PER_EPOCH, spec.MAX_EFFECTIVE_BALANCE, st_next_wvi(state), reg_len(st_vals(state)), p) && sw_count(old(n_wd_write), old(n_set_bal), st_vals(state), st_bals(state), st_slot(state) / spec.SLOTS_PER_EPOCH, spec.MAX_EFFECTIVE_BALANCE, st_next_wvi(state), reg_len(st_vals(state)), p) < spec.MAX_WITHDRAWALS_PER_PAYLOAD ==> sw_count(old(n_wd_write), old(n_set_bal), st_vals(state), st_bals(state), st_slot(state) / spec.SLOTS_PER_EPOCH, spec.MAX_EFFECTIVE_BALANCE, st_next_wvi(state), reg_len(st_vals(state)), p) < len(pl_wds(executionPayload)))
+//@   ensures c03_members_index: err == nil && old(spec != nil && state != nil && executionPayload != nil && spec.SLOTS_PER_EPOCH != 0 && spec.MAX_WITHDRAWALS_PER_PAYLOAD > 0 && spec.MAX_WITHDRAWALS_PER_PAYLOAD < 4611686018427387904 && st_next_wi(state) < 4611686018427387904 && st_next_wvi(state) < 4611686018427387904 && spec.MAX_VALIDATORS_PER_WITHDRAWALS_SWEEP < 4611686018427387904) ==> (forall p :: {sw_count(old(n_wd_write), old(n_set_bal), st_vals(state), st_bals(state), st_slot(state) / spec.SLOTS_PER_EPOCH, spec.MAX_EFFECTIVE_BALANCE, st_next_wvi(state), reg_len(st_vals(state)), p)} 0 <= p && p < min(reg_len(st_vals(state)), spec.MAX_VALIDATORS_PER_WITHDRAWALS_SWEEP) && sw_wd(old(n_wd_write), old(n_set_bal), st_vals(state), st_bals(state), st_slot(state) / spec.SLOTS_PER_EPOCH, spec.MAX_EFFECTIVE_BALANCE, st_next_wvi(state), reg_len(st_vals(state)), p) && sw_count(old(n_wd_write), old(n_set_bal), st_vals(state), st_bals(state), st_slot(state) / spec.SLOTS_PER_EPOCH, spec.MAX_EFFECTIVE_BALANCE, st_next_wvi(state), reg_len(st_vals(state)), p) < spec.MAX_WITHDRAWALS_PER_PAYLOAD ==> pl_wds(executionPayload)[sw_count(old(n_wd_write), old(n_set_bal), st_vals(state), st_bals(state), st_slot(state) / spec.SLOTS_PER_EPOCH, spec.MAX_EFFECTIVE_BALANCE, st_next_wvi(state), reg_len(st_vals(state)), p)].Index == st_next_wi(state) + sw_count(old(n_wd_write), old(n_set_bal), st_vals(state), st_bals(state), st_slot(state) / spec.SLOTS_PER_EPOCH, spec.MAX_EFFECTIVE_BALANCE, st_next_wvi(state), reg_len(st_vals(state)), p) && pl_wds(executionPayload)[sw_count(old(n_wd_write), old(n_set_bal), st_vals(state), st_bals(state), st_slot(state) / spec.SLOTS_PER_EPOCH, spec.MAX_EFFECTIVE_BALANCE, st_next_wvi(state), reg_len(st_vals(state)), p)].ValidatorIndex == sw_idx(st_next_wvi(state), reg_len(st_vals(state)), p))
+//@   ensures c03_members_amount: err == nil && old(spec != nil && state != nil && executionPayload != nil && spec.SLOTS_PER_EPOCH != 0 && spec.MAX_WITHDRAWALS_PER_PAYLOAD > 0 && spec.MAX_WITHDRAWALS_PER_PAYLOAD < 4611686018427387904 && st_next_wi(state) < 4611686018427387904 && st_next_wvi(state) < 4611686018427387904 && spec.MAX_VALIDATORS_PER_WITHDRAWALS_SWEEP < 4611686018427387904) ==> (forall p :: {sw_count(old(n_wd_write), old(n_set_bal), st_vals(state), st_bals(state), st_slot(state) / spec.SLOTS_PER_EPOCH, spec.MAX_EFFECTIVE_BALANCE, st_next_wvi(state), reg_len(st_vals(state)), p)} 0 <= p && p < min(reg_len(st_vals(state)), spec.MAX_VALIDATORS_PER_WITHDRAWALS_SWEEP) && sw_wd(old(n_wd_write), old(n_set_bal), st_vals(state), st_bals(state), st_slot(state) / spec.SLOTS_PER_EPOCH, spec.MAX_EFFECTIVE_BALANCE, st_next_wvi(state), reg_len(st_vals(state)), p) && sw_count(old(n_wd_write), old(n_set_bal), st_vals(state), st_bals(state), st_slot(state) / spec.SLOTS_PER_EPOCH, spec.MAX_EFFECTIVE_BALANCE, st_next_wvi(state), reg_len(st_vals(state)), p) < spec.MAX_WITHDRAWALS_PER_PAYLOAD ==> pl_wds(executionPayload)[sw_count(old(n_wd_write), old(n_set_bal), st_vals(state), st_bals(state), st_slot(state) / spec.SLOTS_PER_EPOCH, spec.MAX_EFFECTIVE_BALANCE, st_next_wvi(state), reg_len(st_vals(state)), p)].Amount == sw_amount(old(n_wd_write), old(n_set_bal), st_vals(state), st_bals(state), st_slot(state) / spec.SLOTS_PER_EPOCH, spec.MAX_EFFECTIVE_BALANCE, st_next_wvi(state), reg_len(st_vals(state)), p))
+//@   ensures c03_members_address: err == nil && old(spec != nil && state != nil && executionPayload != nil && spec.SLOTS_PER_EPOCH != 0 && spec.MAX_WITHDRAWALS_PER_PAYLOAD > 0 && spec.MAX_WITHDRAWALS_PER_PAYLOAD < 4611686018427387904 && st_next_wi(state) < 4611686018427387904 && st_next_wvi(state) < 4611686018427387904 && spec.MAX_VALIDATORS_PER_WITHDRAWALS_SWEEP < 4611686018427387904) ==> (forall p :: {sw_count(old(n_wd_write), old(n_set_bal), st_vals(state), st_bals(state), st_slot(state) / spec.SLOTS_PER_EPOCH, spec.MAX_EFFECTIVE_BALANCE, st_next_wvi(state), reg_len(st_vals(state)), p)} 0 <= p && p < min(reg_len(st_vals(state)), spec.MAX_VALIDATORS_PER_WITHDRAWALS_SWEEP) && sw_wd(old(n_wd_write), old(n_set_bal), st_vals(state), st_bals(state), st_slot(state) / spec.SLOTS_PER_EPOCH, spec.MAX_EFFECTIVE_BALANCE, st_next_wvi(state), reg_len(st_vals(state)), p) && sw_count(old(n_wd_write), old(n_set_bal), st_vals(state), st_bals(state), st_slot(state) / spec.SLOTS_PER_EPOCH, spec.MAX_EFFECTIVE_BALANCE, st_next_wvi(state), reg_len(st_vals(state)), p) < spec.MAX_WITHDRAWALS_PER_PAYLOAD ==> (forall k :: 0 <= k && k < 20 ==> pl_wds(executionPayload)[sw_count(old(n_wd_write), old(n_set_bal), st_vals(state), st_bals(state), st_slot(state) / spec.SLOTS_PER_EPOCH, spec.MAX_EFFECTIVE_BALANCE, st_next_wvi(state), reg_len(st_vals(state)), p)].Address[k] == v_wcred(reg_val(st_vals(state), sw_idx(st_next_wvi(state), reg_len(st_vals(state)), p)))[12 + k]))
 //@   ensures c01_balances: err == nil && old(spec != nil && state != nil && executionPayload != nil && spec.SLOTS_PER_EPOCH != 0 && spec.MAX_WITHDRAWALS_PER_PAYLOAD > 0 && spec.MAX_WITHDRAWALS_PER_PAYLOAD < 4611686018427387904 && st_next_wi(state) < 4611686018427387904 && st_next_wvi(state) < 4611686018427387904 && spec.MAX_VALIDATORS_PER_WITHDRAWALS_SWEEP < 4611686018427387904) ==> n_set_bal == old(n_set_bal) + len(pl_wds(executionPayload))
 //@   ensures c01_next_index: err == nil && old(spec != nil && state != nil && executionPayload != nil && spec.SLOTS_PER_EPOCH != 0 && spec.MAX_WITHDRAWALS_PER_PAYLOAD > 0 && spec.MAX_WITHDRAWALS_PER_PAYLOAD < 4611686018427387904 && st_next_wi(state) < 4611686018427387904 && st_next_wvi(state) < 4611686018427387904 && spec.MAX_VALIDATORS_PER_WITHDRAWALS_SWEEP < 4611686018427387904) ==> n_set_nwi == old(n_set_nwi) + ite(len(pl_wds(executionPayload)) > 0, 1, 0) && (len(pl_wds(executionPayload)) > 0 ==> set_nwi == st_next_wi(state) + len(pl_wds(executionPayload)))
 //@   ensures c01_next_validator_once: err == nil && old(spec != nil && state != nil && executionPayload != nil && spec.SLOTS_PER_EPOCH != 0 && spec.MAX_WITHDRAWALS_PER_PAYLOAD > 0 && spec.MAX_WITHDRAWALS_PER_PAYLOAD < 4611686018427387904 && st_next_wi(state) < 4611686018427387904 && st_next_wvi(state) < 4611686018427387904 && spec.MAX_VALIDATORS_PER_WITHDRAWALS_SWEEP < 4611686018427387904) ==> !reg_len_err(st_vals(state)) && n_set_nwvi == old(n_set_nwvi) + 1
